@@ -918,7 +918,7 @@ func TestC08(t *testing.T) {
 	st.Count("rejected", rejected)
 	st.Count("api_create_checked", apiChecked)
 	st.Set("evaluations", len(inputs))
-	st.Set("rule", "strings generated from the grammar (all shapes to depth 3, quoting/escape/whitespace variants), single-token deletions/duplications/substitutions of them, hand-written boundary strings and fuzzed byte strings <= 64 bytes; distinct = distinct accepted ASTs")
+	st.Set("rule", "strings generated from the grammar (all shapes to depth 3, quoting/escape/whitespace variants), single-token deletions/duplications/substitutions of them, hand-written boundary strings and fuzzed byte strings <= 64 bytes; distinct = distinct accepted ASTs; samples of both classes through CreateSubscription (every rejected string offered three times) and UpdateSubscription (the filter path at every position of the mask)")
 	st.Set("traces_validated_against_impl", len(inputs)-skipped)
 	st.Set("skipped_unsupported_by_model", skipped)
 	for i := 0; i < 3 && i < len(acceptedInputs); i++ {
